@@ -286,49 +286,73 @@ class Ctx:
         return ok
 
     def _run_lines(self, argv, lines, shards, timeout):
+        """one output line per input line, sharded over processes.  A process that dies or hangs is
+        restarted after the line it died on (found by re-running that line alone), so that a crash or an
+        endless loop is pinned to ONE input: that line gets `<no-output …>`, the others their real output."""
         if not lines:
             return []
         n = max(1, min(shards, len(lines) // 2000 + 1))
         size = (len(lines) + n - 1) // n
-        procs = []
-        for i in range(n):
-            chunk = lines[i * size:(i + 1) * size]
-            if not chunk:
-                continue
-            p = subprocess.Popen(argv, stdin=subprocess.PIPE, stdout=subprocess.PIPE, stderr=subprocess.PIPE, text=True)
-            procs.append((p, chunk))
-        outs = []
+        chunks = [lines[i * size:(i + 1) * size] for i in range(n)]
+        chunks = [c for c in chunks if c]
         import threading
-        results = [None] * len(procs)
+        results = [None] * len(chunks)
 
-        def work(i, p, chunk):
+        def once(chunk, tmo):
+            p = subprocess.Popen(argv, stdin=subprocess.PIPE, stdout=subprocess.PIPE, stderr=subprocess.PIPE, text=True)
             try:
-                o, e = p.communicate("\n".join(chunk) + "\n", timeout=timeout)
+                o, e = p.communicate("\n".join(chunk) + "\n", timeout=tmo)
+                why = "rc=%s" % p.returncode
             except subprocess.TimeoutExpired:
                 p.kill()
                 o, e = p.communicate()
-                o = (o or "")
-            ol = o.split("\n")
-            if ol and ol[-1] == "":
-                ol.pop()
-            # a crashed / killed process leaves missing lines
-            while len(ol) < len(chunk):
-                ol.append("<no-output rc=%s>" % p.returncode)
-            results[i] = ol[:len(chunk)]
+                why = "timeout %ss" % tmo
+            ol = (o or "").split("\n")
+            complete = ol[:-1]          # the last element is "" or a partial line
+            return complete[:len(chunk)], (p.returncode == 0 and len(complete) >= len(chunk)), why
 
-        ths = [threading.Thread(target=work, args=(i, p, c)) for i, (p, c) in enumerate(procs)]
+        def work(i, chunk):
+            outs, start, restarts = [], 0, 0
+            while start < len(chunk):
+                o, ok, why = once(chunk[start:], timeout)
+                outs += o
+                start += len(o)
+                if ok or start >= len(chunk):
+                    break
+                if o and o[-1] == "hang":
+                    # the harness watchdog named the case and exited: go on after it
+                    restarts += 1
+                    if restarts > 4:
+                        outs += ["<skipped after %d hangs of the shard>" % restarts] * (len(chunk) - start)
+                        break
+                    continue
+                # died at or after chunk[start]: try that line alone
+                o1, ok1, why1 = once(chunk[start:start + 1], min(timeout, 20))
+                if ok1 and len(o1) == 1:
+                    outs += o1
+                else:
+                    outs.append("<no-output %s>" % why1)
+                start += 1
+                restarts += 1
+                if restarts > 6:
+                    outs += ["<skipped after %d crashes of the shard>" % restarts] * (len(chunk) - start)
+                    break
+            results[i] = (outs + ["<no-output>"] * len(chunk))[:len(chunk)]
+
+        ths = [threading.Thread(target=work, args=(i, c)) for i, c in enumerate(chunks)]
         for t in ths:
             t.start()
         for t in ths:
             t.join()
+        outs = []
         for r in results:
             outs.extend(r)
         return outs
 
-    def run_driver(self, lines, shards=16, timeout=3600):
+    def run_driver(self, lines, shards=16, timeout=900):
         return self._run_lines([DRIVER_BIN], lines, shards, timeout)
 
-    def run_harness(self, mode, lines, shards=16, timeout=3600):
+    def run_harness(self, mode, lines, shards=16, timeout=300):
         return self._run_lines([HARNESS_BIN, mode], lines, shards, timeout)
 
     # ----- comparison ------------------------------------------------------------------
